@@ -58,3 +58,10 @@ def _v7(repo, mod):
     fn = repo.func(CC, "ComputationCache._check_cache")
     i = find_stmt(fn, lambda s: isinstance(s, ast.If) and norm(s.test) == "self._chromosome.changed")
     return insert_before(mod, i, "_unused = only")
+
+
+@variant("C12", "clone-shares-coverage-cache", "pynguin.ga.computation_cache", "C12.clone-fresh", "clone hands its own coverage cache to the copy (seed C12-c)")
+def _vc1(repo, mod):
+    fn = repo.func("pynguin.ga.computation_cache", "ComputationCache.clone")
+    k = find_node(fn, lambda n: isinstance(n, ast.keyword) and n.arg == "coverage_cache")
+    return replace_node(mod, k.value, "self._coverage_cache")
